@@ -911,12 +911,20 @@ def run(ctx):
                     '_zero/_one) for each listed (lattice, T, decoder context); monitor: ' + mon_rule},
     }
     ctx.assumptions = [
-        'matching-graph construction, gt.mwpm (networkx max_weight_matching) and the clustering of matches inside the '
-        'SMWPM decoders are NOT modelled: explored with the verified monitor only',
+        'the recovery construction of the SMWPM decoders (graph nodes/edges, clustering, paths, final XOR) is modelled in '
+        'Model/Smwpm.lean and proved to return to the code space for ANY perfect matchings; edge weights and gt.mwpm '
+        '(networkx) are not modelled (irrelevant to this property as long as the matching is perfect, checked per decode)',
         'numpy Generator.choice never returns an outcome of probability 0 (q = 1 gives all flips, checked on every run)',
         'error models generate errors inside the GF(2) span used for the enumeration (all Paulis / Y-only / identity)',
         'code.stabilizers of the rotated codes is the matrix the property is about (C07)',
     ]
+    # FTP recovery construction of the two symmetry-matching decoders against Model/Smwpm.lean (theorems: Props/C03/Smwpm.lean)
+    from qv import c02_smwpm
+    sm = c02_smwpm.cases(ctx)
+    ctx.explored['smwpm_model_tie'] = {
+        'evaluations': int(sm.get('decodes', 0)), 'exhaustive': False,
+        'rule': 'ideal and FTP (T<=3) decodes: recorded graphs, matchings, clusters, both recovery stages and the final '
+                'recovery compared exactly with Model/Smwpm.lean given the recorded matchings'}
     return ctx.finish(RULE, search=search,
                       explanation='run-level algebra, reachable-input characterisation and result-constructor logic '
                                   'are theorems tied by exact correspondence; the SMWPM matching/clustering internals '
